@@ -176,6 +176,49 @@ def run(chk):
     finally:
         shutil.rmtree(tmpd, ignore_errors=True)
 
+    # ---- custom content inside nested values that are handed over as ready-made library objects (built with customisation allowed), and content whose member names coincide with switches
+    def nested_object_cases():
+        V = stix2.v21; V0 = stix2.v20
+        er = lambda m: m.ExternalReference(allow_custom=True, source_name='s', x_inner=1)
+        er_hash = lambda m: m.ExternalReference(allow_custom=True, source_name='s', url='http://x', hashes={'x-my-hash': 'abc'})
+        yield ('embedded object (ExternalReference) with a custom property', lambda ac: V.Identity(allow_custom=ac, name='n', external_references=[er(V)]))
+        yield ('embedded object (ExternalReference, 2.0) with a custom property', lambda ac: V0.Identity(allow_custom=ac, name='n', identity_class='individual', external_references=[er(V0)]))
+        yield ('embedded object with a non-specification hash algorithm', lambda ac: V.Identity(allow_custom=ac, name='n', external_references=[er_hash(V)]))
+        yield ('kill chain phase object with a custom property', lambda ac: V.Malware(allow_custom=ac, name='m', is_family=False, kill_chain_phases=[V.KillChainPhase(allow_custom=True, kill_chain_name='k', phase_name='p', x_inner=1)]))
+        yield ('registered extension object with a custom property', lambda ac: V.File(allow_custom=ac, name='f', extensions={'ntfs-ext': V.NTFSExt(allow_custom=True, sid='s', x_inner=1)}))
+        yield ('registered extension object (2.0) with a custom property', lambda ac: V0.File(allow_custom=ac, name='f', extensions={'ntfs-ext': V0.NTFSExt(allow_custom=True, sid='s', x_inner=1)}))
+        yield ('registered extension object holding a stream with a non-specification hash', lambda ac: V.File(allow_custom=ac, name='f', extensions={'ntfs-ext': V.NTFSExt(allow_custom=True, alternate_data_streams=[V.AlternateDataStream(allow_custom=True, name='n', hashes={'foo': 'abc'})])}))
+        yield ('bundle member object with a custom property', lambda ac: V.Bundle(V.Identity(allow_custom=True, name='n', x_custom=1), allow_custom=ac))
+        yield ('bundle member object (2.0) with a custom property', lambda ac: V0.Bundle(V0.Identity(allow_custom=True, name='n', identity_class='individual', x_custom=1), allow_custom=ac))
+        yield ('observed-data member object (2.0) with a custom property', lambda ac: V0.ObservedData(allow_custom=ac, first_observed=G.T1, last_observed=G.T1, number_observed=1, objects={'0': V0.File(allow_custom=True, name='f', x_member=1)}))
+        yield ('granular marking object with a custom property', lambda ac: V.Identity(allow_custom=ac, name='n', granular_markings=[V.GranularMarking(allow_custom=True, marking_ref='marking-definition--613f2e26-407d-48c7-9eca-b8e91df99dc9', selectors=['name'], x_inner=1)]))
+        yield ('parse of an object holding a custom extension object', lambda ac: stix2.parse(V.File(allow_custom=True, name='f', extensions={'ntfs-ext': V.NTFSExt(allow_custom=True, sid='s', x_inner=1)}), allow_custom=ac))
+        for sw in ('allow_custom', 'interoperability', '_valid_refs', 'version'):
+            d = {'type': 'identity', 'spec_version': '2.1', 'id': 'identity--' + G.UUID, 'created': G.T1, 'modified': G.T1, 'name': 'n', 'x_custom': 1, sw: True}
+            yield (f'member named {sw} next to a custom property', lambda ac, d=d: stix2.parse(copy.deepcopy(d), allow_custom=ac))
+            b = {'type': 'bundle', 'id': 'bundle--' + G.UUID, sw: True, 'objects': [{k: v for k, v in d.items() if k != sw}]}
+            yield (f'bundle member named {sw}, custom property in a member', lambda ac, b=b: stix2.parse(copy.deepcopy(b), allow_custom=ac))
+            f = {'type': 'file', 'spec_version': '2.1', 'id': 'file--' + G.UUID, 'name': 'f', 'hashes': {'x-my-hash': 'abc'}, sw: True}
+            yield (f'observable member named {sw} next to a non-specification hash', lambda ac, f=f: stix2.parse_observable(copy.deepcopy(f), allow_custom=ac, version='2.1'))
+
+    def check_nested(case):
+        name, build = case
+        try:
+            o = build(False)
+            return (f'strict#nested object:{name}', f'{name}: accepted with customisation disallowed; emitted {o.serialize()[:200] if hasattr(o, "serialize") else str(o)[:200]}', {})
+        except Exception as ex:
+            if not O.family(ex): return (f'escape#{type(ex).__name__}', f'{name}: {type(ex).__name__}: {ex}', {})
+        if name.startswith(('member named', 'bundle member named', 'observable member named')): return None
+        try: o = build(True)
+        except Exception: return None
+        if isinstance(o, dict) or not hasattr(o, 'has_custom'): return None
+        text = o.serialize()
+        try: stix2.parse(json.loads(text), allow_custom=False); strict_ok = True
+        except Exception: strict_ok = False
+        if o.has_custom == strict_ok: return (f'flag#nested object:{name}', f'{name}: has_custom={o.has_custom} but a strict re-parse of the serialization ' + ('succeeds' if strict_ok else 'is refused'), {'serialization': text[:300]})
+    chk.bounded('custom content inside ready-made nested objects; member names that coincide with switches', list(nested_object_cases()), check_nested, classify=lambda c: c[0],
+                bound='12 kinds of nested library objects built with customisation allowed (embedded objects, extensions, bundle and observed-data members, both versions) + 4 switch names x 3 containers')
+
     # objects without any custom content: flag false and strict re-parse accepted
     def clean_cases():
         for ver in ('2.0', '2.1'):
